@@ -112,3 +112,20 @@ class OR:
         return out.ret and same(out.value, exists(0, n, lambda j: truth(items[j])))
 
     loops = [dict(inv=lambda k, args: forall(0, k, lambda j: not is_err(args[j])))]
+
+
+@contract('hotxlfp.formulas.logic:XOR', props=['C12'])
+class XOR:
+    # the error clause is proved; the parity of the number of true items is decided by the bounded stand-in only
+    # (a sum over a symbolic sequence has no decidable SMT definition here)
+    args = dict(args=ARGS(SCALAR))
+    bounded_args = dict(args=ARGS(VALUE_T))
+
+    def post(args, out):
+        items = flat(args)
+        n = len(items)
+        if exists(0, n, lambda j: is_err(items[j])):
+            return out.ret and is_err(out.value) and exists(0, n, lambda j: same(items[j], out.value))
+        return out.ret and is_bool(out.value) and same(out.value, parity_true(items))
+
+    loops = [dict(inv=lambda k, args: forall(0, k, lambda j: not is_err(args[j])))]
